@@ -3,8 +3,8 @@
 # to /repo, run the matching check, undo it straight afterwards, and record
 # whether it was detected.   usage: tools/seeded.sh [--tier quick] [--seeds "1 2"] [id ...]
 cd /verif || exit 2
-TIER=quick; SEEDS="1"; WALL=""; PROP=""
-while [ $# -gt 0 ]; do case "$1" in --tier) TIER=$2; shift 2;; --seeds) SEEDS=$2; shift 2;; --wall) WALL="--wall $2"; shift 2;; --prop) PROP=$2; shift 2;; *) break;; esac; done
+TIER=quick; SEEDS="1"; WALL=""; PROP=""; EXTRA=""
+while [ $# -gt 0 ]; do case "$1" in --tier) TIER=$2; shift 2;; --seeds) SEEDS=$2; shift 2;; --wall) WALL="--wall $2"; shift 2;; --prop) PROP=$2; shift 2;; --fast) EXTRA="--min-budget 30s --max-classes 2"; shift;; *) break;; esac; done
 IDS="$@"; [ -z "$IDS" ] && IDS=$(ls seeded | grep -E '^(C1[01]|M1[01]|E1[01])-')
 if [ -n "$(git -C /repo status --porcelain)" ]; then echo "seeded.sh: /repo is not clean, refusing"; exit 2; fi
 # the checks rewrite evidence/<id>.json on every run: keep the files that were
@@ -18,7 +18,7 @@ for id in $IDS; do
   for seed in $SEEDS; do
     git -C /repo apply /verif/seeded/$id/patch.diff || { echo "$id: patch does not apply"; continue; }
     t0=$(date +%s)
-    out=$(VERIF_SEED=$seed ./run $prop --tier $TIER $WALL 2>&1); code=$?
+    out=$(VERIF_SEED=$seed ./run $prop --tier $TIER $WALL $EXTRA 2>&1); code=$?
     t1=$(date +%s)
     git -C /repo checkout -q -- .
     viol=$(echo "$out" | grep -c '^VIOLATION')
